@@ -5,6 +5,7 @@ import (
 	"fmt"
 	"strings"
 	"sync"
+	"time"
 
 	"github.com/ipfs/go-graphsync"
 	"github.com/ipld/go-ipld-prime/datamodel"
@@ -77,7 +78,7 @@ var conOps = []conOp{
 		_, _ = w.Mgr.ChannelState(opCtx, c)
 		_, _ = w.Mgr.InProgressChannels(opCtx)
 	}},
-	{"stop", func(w *l2transport.RealWorld, c datatransfer.ChannelID, r int) { _ = w.Mgr.Stop(opCtx) }},
+	{"stop", func(w *l2transport.RealWorld, c datatransfer.ChannelID, r int) { _ = w.StopVia(opCtx) }},
 }
 
 func lockPoints(kind string, obj any) bool { return kind == "lock" || kind == "rlock" }
@@ -163,8 +164,12 @@ func c20Body(x *mc.Cell, ops []int, name, names string) mc.Body {
 				x.Cap(name + ": step cap")
 			}
 			if len(stuck) > 0 {
-				// maybe they wait on a timeout: give the virtual clock 24h
-				stuck, _ = s.Run(c, 6000, 0, 0)
+				// maybe they wait on a timeout (e.g. the 1 s fail-safe while waiting for a cancelled graphsync request
+				// to complete): let the virtual clock run - 30 s in half-second steps, then 24 h in hours
+				stuck, _ = s.Run(c, 9000, 500*time.Millisecond, 60)
+				if len(stuck) > 0 {
+					stuck, _ = s.Run(c, 12000, time.Hour, 24)
+				}
 			}
 			parked := mc.Parked()
 			if len(stuck) > 0 {
@@ -270,6 +275,14 @@ func init() {
 	mc.Register("C20", "interleave-2-preemptions/restart+restart+peer-cancels", "thorough", func(x *mc.Cell) {
 		c20InterleaveCap(x, []int{opIdx("restart"), opIdx("restart"), opIdx("peer-cancels")}, 2, 60000)
 	})
+	// two operations that read the channel through its state machine, racing with Stop (found by the thorough
+	// triples: a query accepted by a state machine that is stopped before answering, see DESIGN 9.3 F10)
+	for _, tr := range [][3]string{{"close", "close", "stop"}, {"block-received", "peer-cancels", "stop"}, {"peer-cancels", "request-completes", "stop"}} {
+		tr := tr
+		mc.Register("C20", fmt.Sprintf("interleave-triples-with-stop/%s+%s", tr[0], tr[1]), "quick", func(x *mc.Cell) {
+			c20InterleaveCap(x, []int{opIdx(tr[0]), opIdx(tr[1]), opIdx(tr[2])}, 1, 4000)
+		})
+	}
 	n := len(conOps)
 	for a := 0; a < n; a++ {
 		for b := a; b < n; b++ {
